@@ -255,6 +255,53 @@ fn two_vamms(which: usize, partial: bool) -> impl Fn() {
     }
 }
 
+/// a PARTIAL close (tight price band, fraction 25%) as the first action in a liquidation block:
+/// it stamps the position like any other action, so a second action in that block is rejected;
+/// `liq_first`: the liquidation comes before / after the partial close
+fn pclose_then_second_action(liq_first: bool) -> impl Fn() {
+    move || {
+        FEE_MODE.with(|m| m.set(0));
+        let mut r = staged(true);
+        let d = r.w.d;
+        // (the band is configured in the block before the one under test)
+        // (5%: closing bob's whole position would leave it, the 25% fraction does not)
+        assert!(r.w.update_vamm(0, None, None, None, None, Some(Uint128::new(d / 20)), None).ok);
+        r.w.next_block(15);
+        if liq_first {
+            if !r.step(Op::Liquidate { by: LIQ, trader: ALICE, limit: Uint128::zero() }).tx.ok {
+                return;
+            }
+        }
+        let size0 = r.w.position(0, BOB).map(|p| p.size.value);
+        let t = r.step(Op::Close { who: BOB, limit: Uint128::zero() });
+        if !t.tx.ok {
+            symrt::log_event(format!("first close failed: {}", crate::sx::norm(&t.tx.err)));
+            return;
+        }
+        let what = format!("partial close by bob {} the liquidation", if liq_first { "after" } else { "before" });
+        if let Some(p1) = r.w.position(0, BOB) {
+            prove_d("C16/successful-action-stamps-the-position-with-the-current-block", Cond::from_bool(p1.block_number == r.w.height()), format!("{} stamp={} height={}", what, p1.block_number, r.w.height()));
+            symrt::log_event(format!("partial close: size {:?} -> {}", size0, p1.size.value));
+        }
+        if !liq_first {
+            if !r.step(Op::Liquidate { by: LIQ, trader: ALICE, limit: Uint128::zero() }).tx.ok {
+                return;
+            }
+        }
+        symrt::set_full(true);
+        let dump0 = r.w.dump();
+        let t = r.step(Op::Close { who: BOB, limit: Uint128::zero() });
+        prove_d("C16/second-action-in-liquidation-block-rejected", Cond::from_bool(!t.tx.ok), format!("{}: second close", what));
+        mon::dump_unchanged("C16/rejected-second-action-changes-no-storage", &dump0, &r.w.dump(), &what);
+        let m = amount("amt", d, false, 3);
+        let t = r.step(Op::Open { who: BOB, side: Side::Sell, margin: m, lev: Uint128::new(2 * d), limit: Uint128::zero(), funds: None });
+        prove_d("C16/second-action-in-liquidation-block-rejected", Cond::from_bool(!t.tx.ok), format!("{}: open", what));
+        r.w.next_block(15);
+        let t = r.step(Op::Close { who: BOB, limit: Uint128::zero() });
+        prove_d("C16/untouched-traders-and-later-blocks-not-restricted", Cond::from_bool(t.tx.ok || !t.tx.err.contains("Only one action allowed")), format!("{}: next block err={}", what, crate::sx::norm(&t.tx.err)));
+    }
+}
+
 pub fn scenarios(seed: u64) -> Vec<Scenario> {
     let mut v = vec![];
     let de = "staged liquidatable position; all event sequences over {open by bob/liquidator(long,short)/bystander/alice, close by bob/liquidator, liquidate alice, next block} containing a liquidation; concrete amounts (pure enumeration of orderings and block boundaries)";
@@ -268,6 +315,8 @@ pub fn scenarios(seed: u64) -> Vec<Scenario> {
     }
     v.push(sc("C16", Tier::Quick, "c16.enum.len3.partial-zero-fee", de, 5, 150, enumerate_zero_fee(3, 1, 0)));
     v.push(sc("C16", Tier::Thorough, "c16.enum.len4.sample.partial-zero-fee", de, 5, 300, enumerate_zero_fee(4, 23, (seed as usize) % 23)));
+    v.push(sc("C16", Tier::Quick, "c16.pclose.before-liq", "a partial close (5% price band + 25% fraction) is the first action of a trader in a block in which a liquidation follows: the record is stamped, a second action is rejected", 200, 90, pclose_then_second_action(false)));
+    v.push(sc("C16", Tier::Thorough, "c16.pclose.after-liq", "the same with the liquidation first (it usually leaves the band, which rejects the close for that reason)", 200, 90, pclose_then_second_action(true)));
     for which in 0..2usize {
         for partial in [false, true] {
             v.push(sc("C16", Tier::Quick, &format!("c16.two-vamms.actions-on-vamm{}.{}", which, if partial { "partial" } else { "full" }), "two registered vAMMs: a liquidation on vAMM 0; a trader acting twice in that block is restricted on vAMM 0 only", 200, 90, two_vamms(which, partial)));
